@@ -98,6 +98,29 @@ pub struct Subject {
     pub proof_b: Vec<u8>,
     pub proof_v2: Vec<u8>,
     pub pi: Vec<F>,
+    /// a V1 proof of the same instance made by the reference prover (the
+    /// crate has no V1 prover); None above the reference prover's size budget
+    pub proof_v1: Option<Vec<u8>>,
+}
+
+/// V1 proof of the program's own assignment from the independent reference
+/// prover (circuits of at most 128 rows)
+fn v1_proof(composer: &dusk_plonk::prelude::Composer, label: &[u8], cap: usize, seed: u64) -> Option<Vec<u8>> {
+    use crate::refprover::{self, Deviation};
+    let snap = composer.verif_snapshot();
+    let layout = crate::spec::Layout::from_snapshot(&snap);
+    if layout.size() > 128 {
+        return None;
+    }
+    let pp = sys::pp(cap);
+    let srs = refprover::srs_for(cap, &pp, layout.size() + 7);
+    let keys = refprover::ref_keys(&layout, label, &srs)?;
+    let bl = f_stream(seed ^ 0x7131, 14);
+    let mut b14 = [F::zero(); 14];
+    b14.copy_from_slice(&bl);
+    refprover::prove(&keys, &layout, &srs, &snap.witnesses, &snap.public_inputs, &b14, Version::V1, &Deviation::default())
+        .ok()
+        .map(|o| o.proof.to_bytes().to_vec())
 }
 
 pub fn subject(ops: &[Op], label: &[u8], seed: u64) -> Result<Subject, Fail> {
@@ -105,7 +128,9 @@ pub fn subject(ops: &[Op], label: &[u8], seed: u64) -> Result<Subject, Fail> {
     let (c, _) = prog::build(&program)
         .map_err(|e| Fail::new("honest-build-error", format!("{e:?}")))?;
     let n = c.constraints();
-    let pp = sys::pp(sys::min_capacity(n).max(64));
+    let cap = sys::min_capacity(n).max(64);
+    let pp = sys::pp(cap);
+    let proof_v1 = v1_proof(&c, label, cap, seed);
     let (prover, verifier) = sys::compile(&pp, label, &program, Route::Instance)
         .map_err(|e| Fail::new("compile-error", format!("{e:?}")))?;
     let (proof, pi) = sys::prove(&prover, &program, seed)
@@ -125,6 +150,7 @@ pub fn subject(ops: &[Op], label: &[u8], seed: u64) -> Result<Subject, Fail> {
         proof_b: proof_b.to_bytes().to_vec(),
         proof_v2: proof_v2.to_bytes().to_vec(),
         pi,
+        proof_v1,
     })
 }
 
@@ -207,6 +233,43 @@ fn check(ctx: &Ctx, c: &Case) -> PResult {
     compare(ctx, "v3-proof-as-v1", &s.verifier, &s.rv, &s.proof, &s.pi, PlonkVersion::V1, Some(false))?;
     compare(ctx, "v2-proof-as-v3", &s.verifier, &s.rv, &s.proof_v2, &s.pi, v3, Some(false))?;
     compare(ctx, "v2-proof-as-v1", &s.verifier, &s.rv, &s.proof_v2, &s.pi, PlonkVersion::V1, Some(false))?;
+
+    // V1 (legacy equation without the selector openings in the batch): accept
+    // side from the reference prover, then the same edits as for V3
+    if let Some(p1) = &s.proof_v1 {
+        let v1 = PlonkVersion::V1;
+        compare(ctx, "honest-v1 (reference prover)", &s.verifier, &s.rv, p1, &s.pi, v1, Some(true))?;
+        compare(ctx, "v1-proof-as-v2", &s.verifier, &s.rv, p1, &s.pi, PlonkVersion::V2, Some(false))?;
+        compare(ctx, "v1-proof-as-v3", &s.verifier, &s.rv, p1, &s.pi, v3, Some(false))?;
+        for f in c.flips.iter().take(10) {
+            let bit = pick(*f, PROOF_LEN * 8);
+            let mut b = p1.clone();
+            b[bit / 8] ^= 1 << (bit % 8);
+            // the four selector openings are not part of the V1 batch; the
+            // reference decides (q_arith..q_r are fields 18..=21)
+            let field = if bit / 8 < 528 { bit / 8 / 48 } else { 11 + (bit / 8 - 528) / 32 };
+            let expect = if (18..=21).contains(&field) { None } else { Some(false) };
+            compare(ctx, if bit / 8 < 528 { "v1 bit-flip commitment" } else { "v1 bit-flip evaluation" }, &s.verifier, &s.rv, &b, &s.pi, v1, expect)?;
+        }
+        for field in 11..26usize {
+            // every evaluation of the V1 proof replaced by that of the V3 proof
+            let r = field_range(field);
+            let mut b = p1.clone();
+            b[r.clone()].copy_from_slice(&s.proof[r.clone()]);
+            if b == *p1 {
+                ctx.excluded("substitution left the proof unchanged");
+                continue;
+            }
+            compare(ctx, "v1 evaluation from the V3 proof", &s.verifier, &s.rv, &b, &s.pi, v1, None)?;
+        }
+        if !s.pi.is_empty() {
+            let mut pi = s.pi.clone();
+            pi[0] += F::one();
+            compare(ctx, "v1 public input changed", &s.verifier, &s.rv, p1, &pi, v1, Some(false))?;
+        }
+    } else {
+        ctx.excluded("circuit above the reference prover's budget: no V1 accept side");
+    }
 
     // verifier rebuilt from bytes decides the same
     let vb = Verifier::try_from_bytes(s.verifier.to_bytes())
@@ -414,5 +477,5 @@ pub fn sweeps(ctx: &Ctx) {
 pub fn describe(ctx: &Ctx) {
     ctx.rule("triples (verifier, proof, public inputs): honest V3/V2 proofs of generated circuits; each proof verified under V1/V2/V3; sampled and (sweep) ALL 8064 single-bit flips; each of the 26 fields replaced by the same field of another valid proof / another slot / a random valid element / identity-zero; public-input edits; the proof shown to another circuit's and another label's verifier; verifier rebuilt from bytes; repeated calls. Oracle: independent reference verifier must give the same verdict, and the verdict must be the one the class demands. non-trivial = the triple decodes and reaches the verification equation; distinct by hash of (proof bytes, label, version, public inputs)");
     ctx.assume("reference verifier (harness/src/refver.rs): merlin transcript + explicit equation + two separately computed pairings; trusted, and validated by accepting every honest proof (C01) and rejecting every mutation");
-    ctx.assume("V1 accept side is not populated (no V1 prover exists); V1 is compared for agreement on rejects only");
+    ctx.assume("V1 accept side is populated by the independent reference prover (the crate has no V1 prover) for circuits of at most 128 rows");
 }
